@@ -89,7 +89,8 @@ def _script_python(sig, call):
 
 
 def shard(arg) -> core.Part:
-    fam, names, lo, hi, inline_all = arg
+    fam, names, lo, hi, inline_k = arg
+    npairs = ninline = 0
     import jinja2
 
     p = core.Part()
@@ -121,21 +122,30 @@ def shard(arg) -> core.Part:
                     "script": f"import jinja2\nprint(jinja2.Environment().from_string({src!r}).module)\n"})
         if mod is not None and not exp_err:
             mods.append((sig, mod))
-    for call in calls:
+    outcomes = set()
+    for ci, call in enumerate(calls, lo):
         csrc = G.call_source(call)
         tmpl = env.from_string(csrc)
-        inline = inline_all or (call[2] is None and call[3] is None)
+        rf, newctx = tmpl.root_render_func, tmpl.new_context
         flags = None
-        for sig, mod in mods:
+        for si, (sig, mod) in enumerate(mods):
             want = G.ref_call(sig, call)
-            routes = [("template", _outcome(lambda: tmpl.render(m=mod.m, cbx=mod.cbx))),
-                      ("python", _outcome(lambda: _py_call(mod, call)))]
-            if inline:
+            # route "template": what Template.render does, minus the traceback rewriting of failures
+            try:
+                got_t = ("ok", "".join(rf(newctx({"m": mod.m, "cbx": mod.cbx}))))
+            except Exception as e:  # noqa: BLE001
+                got_t = ("exc", type(e).__name__)
+            try:
+                got_p = ("ok", str(_py_call(mod, call)))
+            except Exception as e:  # noqa: BLE001
+                got_p = ("exc", type(e).__name__)
+            routes = [("template", got_t), ("python", got_p)]
+            if inline_k == 1 or (si + ci) % inline_k == 0:
                 full = G.macro_source(sig) + csrc
                 routes.append(("inline", _outcome(lambda: jinja2.Environment().from_string(full).render())))
-            p.evals += len(routes)
-            p.count("calls")
-            p.sig((fam, want))
+                ninline += 1
+            npairs += 1
+            outcomes.add(want)
             for route, got in routes:
                 if got != want:
                     if flags is None:
@@ -151,6 +161,11 @@ def shard(arg) -> core.Part:
             sig = mods[len(mods) // 2][0]
             p.sample({"macro": "{% macro m(" + G.sig_source(sig[0]) + ") %}...uses " + ",".join(sorted(sig[1])) + "{% endmacro %}",
                       "call": csrc, "expected": list(G.ref_call(sig, call))})
+    for o in outcomes:
+        p.sig((fam, o))
+    p.evals += 2 * npairs + ninline
+    p.count("calls", npairs)
+    p.count("inline_cases", ninline)
     return p
 
 
@@ -168,11 +183,11 @@ def plan(quick):
     for fam, ns, pl in groups:
         ncalls = sum(1 for _ in G.calls_for(pl))
         nsig = sum(1 for q in family_param_lists(fam, nmax) if names_of(q) == ns) * 12
-        inline_all = len(ns) <= 1
+        inline_k = 1 if len(ns) <= 1 else (151 if quick else 61)
         # aim at shards of comparable work: calls x signatures
-        per = max(8, int(150000 / max(1, nsig)))
+        per = max(8, int(100000 / max(1, nsig)))
         for lo in range(0, ncalls, per):
-            shards.append((fam, ns, lo, min(ncalls, lo + per), inline_all))
+            shards.append((fam, ns, lo, min(ncalls, lo + per), inline_k))
     return nmax, shards
 
 
